@@ -45,12 +45,21 @@ type W struct {
 	nViol     int
 	idx       int64
 	seenKeys  map[string]int
+	seedOff   int64 // VERIF_SEED only rotates which shard takes which case; the set of cases is the same
 }
 
 func NewW(kind string, shard, of int, only, resume, curPath, hashPath string, params json.RawMessage) *W {
 	w := &W{Shard: shard, Of: of, Only: only, resume: resume, Kind: kind, Params: params,
 		counts: map[string]int64{}, hashes: map[uint64]struct{}{}, maxSample: 3,
 		out: bufio.NewWriterSize(os.Stdout, 1<<16), Deadline: 20 * time.Second, seenKeys: map[string]int{}}
+	if s := os.Getenv("VERIF_SEED"); s != "" {
+		var v int64
+		fmt.Sscan(s, &v)
+		if v < 0 {
+			v = -v
+		}
+		w.seedOff = v % 1024
+	}
 	if curPath != "" {
 		w.cur, _ = os.OpenFile(curPath, os.O_RDWR|os.O_CREATE|os.O_TRUNC, 0o644)
 	}
@@ -75,7 +84,15 @@ func (w *W) watchdog() {
 }
 
 // Mine reports whether the n-th case (a running counter kept by the caller or by NextMine) belongs to this shard.
-func (w *W) Mine(n int64) bool { return w.Of <= 1 || int(n%int64(w.Of)) == w.Shard }
+func (w *W) Mine(n int64) bool { return w.Of <= 1 || int((n+w.seedOff)%int64(w.Of)) == w.Shard }
+
+// Owner returns the shard that takes case n.
+func (w *W) Owner(n int64) int {
+	if w.Of <= 1 {
+		return 0
+	}
+	return int((n + w.seedOff) % int64(w.Of))
+}
 
 // NextMine increments the internal case counter and says whether this case is ours.
 func (w *W) NextMine() bool { w.idx++; return w.Mine(w.idx - 1) }
